@@ -69,6 +69,34 @@ def params_reach(t, st, acc=None, seen=None):
     return acc
 
 
+INJECTIVE_CALLS = ('characters', 'rep', 'intern', 'begin', 'end', 'cbegin', 'cend', 'operand', 'get', 'basic_string_view', 'data',
+                   'length', 'size')
+
+
+def determines(t, p):
+    """The parameter p occurs in the key-side term t in a position that determines it: the parameter itself, its address, a
+    value object built from it, its whole content (characters of a String, the representation of a sequence) -- not merely a
+    projection such as its type or its linkage."""
+    if t == ('param', p):
+        return True
+    if not isinstance(t, tuple) or not t:
+        return False
+    if t[0] in ('addr', 'deref', 'castto', 'un'):
+        return any(determines(x, p) for x in t[1:])
+    if t[0] == 'val':
+        return any(determines(v, p) for _n, v in t[2])
+    if t[0] in ('call', 'vcall') and len(t) >= 4:
+        from symex import fn_simple
+        if fn_simple(t[1]) in INJECTIVE_CALLS or t[1].startswith('std::'):
+            return (t[2] is not None and determines(t[2], p)) or any(determines(a, p) for a in t[3])
+        return False
+    if t[0] in ('fld', 'index', 'elem', 'iter'):
+        return any(determines(x, p) for x in t[1:])
+    if t[0] == 'op':
+        return any(determines(x, p) for x in t[2:])
+    return any(determines(x, p) for x in t if isinstance(x, tuple))
+
+
 def comparator_in(F, tree_fid):
     """Callee of `comp(element, key)` inside an instantiated tree operation."""
     f = F.fn.get(tree_fid)
@@ -418,6 +446,8 @@ class KeyChecker:
             return
         bad = []
         covered = set(extra_covered)
+        full = set(extra_covered)
+        partial = {}
         sample = []
         st_any = outs[0][0]
         for (kind, a, b, extra) in seq:
@@ -437,6 +467,13 @@ class KeyChecker:
             pa = {p for p in params_in(self.norm(a, st_any)) if p < Q}
             pb = {p - Q for p in params_in(self.norm(b, st_any)) if p >= Q}
             covered |= (pa & pb)
+            # does the component determine the parameter (identity, whole content) or only a projection of it?
+            nbq = self.norm(b, st_any)
+            for p in (pa & pb):
+                if determines(nbq, p + Q):
+                    full.add(p)
+                else:
+                    partial.setdefault(p, set()).add((rb, nbq))
         ck.check(self.R_diag, inst, not bad,
                  f'comparator {contracts.short(contracts.fn_qname(cmp_fid))} selected for ({F.rec.get(st_any.heap[objP[1]].cls, {}).get("simple", "element")}, key): '
                  + '; '.join(bad) + ' -- a repeated request never finds its element', loc=loc, fn=cmp_fid,
@@ -449,6 +486,9 @@ class KeyChecker:
         # selected by the outer key: Scope -> overload set by name -> entry by type)
         fc = self.fn_cover.setdefault(f['id'], {'f': f, 'n': nparams, 'covered': set(), 'tables': [], 'samples': []})
         fc['covered'] |= covered
+        fc.setdefault('full', set()).update(full)
+        for p, how in partial.items():
+            fc.setdefault('partial', {}).setdefault(p, set()).update(how)
         fc['tables'].append(inst)
         fc['samples'].extend(sample)
 
@@ -503,10 +543,25 @@ class KeyChecker:
             v = fixed[t]
             if x == pq and through and through[0] in ('size', 'length') and isinstance(v, tuple) and v[0] == 'k' and v[1] == 0:
                 return True
-        t = f['params'][i]['t'].replace('const ', '').replace('&', '').strip()
+        comps = self.eq_components(f['params'][i]['t'])
+        if comps is None:
+            return False
+
+        def subst(t):
+            if not isinstance(t, tuple):
+                return t
+            if t == ('param', 9998):
+                return pq
+            return tuple(subst(x) for x in t)
+        return bool(comps) and all(subst(c) in fixed for c in comps)
+
+    def eq_components(self, ptype):
+        """The projections (terms over ('param', 9998)) that the interface's own operator== of a value type compares, or None
+        when the type has no such operator (a node: identity)."""
+        t = ptype.replace('const ', '').replace('&', '').strip()
         opeq = f'{t}::operator==(const {t} &) const'
         if opeq not in self.F.fn:
-            return False
+            return None
         key = (opeq,)
         if key not in self.atom_cache:
             X = ('param', 9999)
@@ -534,15 +589,7 @@ class KeyChecker:
             if not shape_ok[0]:
                 comps = []                        # not a conjunction of component equalities: fixes nothing
             self.atom_cache[key] = comps
-        comps = self.atom_cache[key]
-
-        def subst(t):
-            if not isinstance(t, tuple):
-                return t
-            if t == ('param', 9998):
-                return pq
-            return tuple(subst(x) for x in t)
-        return bool(comps) and all(subst(c) in fixed for c in comps)
+        return self.atom_cache[key]
 
     def guard_paths(self, f, runs):
         """(guard) on every returning path of the request that consults a table, a parameter that occurs in
@@ -583,6 +630,42 @@ class KeyChecker:
                           f'parameter(s) {[f["params"][i]["name"] or i for i in missing]} of {fid} take no part in any key '
                           f'comparison of the tables it consults ({", ".join(sorted(set(fc["tables"])))})',
                           loc=f['loc'], fn=fid, detail={'compared': fc['samples'][:6]})
+
+    def finish_partial(self, allow=()):
+        """A parameter that enters the keys only through a projection (its linkage, its type, ...) does not tell apart
+        requests that differ in the rest of it."""
+        for fid, fc in sorted(self.fn_cover.items()):
+            f = fc['f']
+            for p, how_terms in sorted((fc.get('partial') or {}).items()):
+                if p in fc.get('full', set()):
+                    continue
+                how = {h for h, _t in how_terms}
+                # a value parameter is determined jointly by the projections its own operator== compares
+                comps = self.eq_components(f['params'][p]['t'])
+                if comps:
+                    def subst(t, pq=('param', p + Q)):
+                        if not isinstance(t, tuple):
+                            return t
+                        if t == ('param', 9998):
+                            return pq
+                        return tuple(subst(x) for x in t)
+
+                    def contains(t, c):
+                        return t == c or (isinstance(t, tuple) and any(contains(x, c) for x in t))
+                    def core(c):
+                        # identity of a String and its characters determine each other (C03): compare the designated object
+                        while isinstance(c, tuple) and c and c[0] in ('addr', 'castto'):
+                            c = c[1] if c[0] == 'addr' else c[2]
+                        return c
+                    if all(any(contains(t, core(subst(c))) for _h, t in how_terms) for c in comps):
+                        continue
+                inst = contracts.short(contracts.fn_qname(fid)) + '(' + ', '.join(contracts.short(q['t']) for q in f['params']) + ')/' + str(f['params'][p]['name'] or p)
+                why = [w for (suffix, idx, w) in allow if fid.startswith(suffix) and idx == p]
+                if why:
+                    self.ck.note(f'{inst}: keyed through {sorted(how)} by design: {why[0]}')
+                    continue
+                self.ck.fail(self.R_cover, inst, f'parameter `{f["params"][p]["name"] or p}` of {fid} enters the key comparisons only through '
+                             f'{sorted(how)}: requests that differ in the rest of it are given the same node', loc=f['loc'], fn=fid)
 
     @staticmethod
     def seq_of(pair):
